@@ -499,10 +499,10 @@ func init() {
 		"errors.New":              {pure: true, apply: (*fnTrans).mNewError},
 		"fmt.Sprintf":             {pure: true},
 		"fmt.Errorf":              {pure: true, apply: (*fnTrans).mNewError},
-		"strings.HasPrefix":       {pure: true},
+		"strings.HasPrefix":       {pure: true, apply: (*fnTrans).mStrHasPrefix},
 		"strings.Contains":        {pure: true},
 		"strings.Index":           {pure: true, apply: (*fnTrans).mStringsIndex},
-		"strings.TrimPrefix":      {pure: true},
+		"strings.TrimPrefix":      {pure: true, apply: (*fnTrans).mTrimPrefix},
 		"strings.ToLower":         {pure: true},
 		"strconv.Atoi":            {pure: true, apply: (*fnTrans).mAtoi},
 		"strconv.Itoa":            {pure: true},
@@ -826,6 +826,9 @@ func (t *fnTrans) invokeCall(in ssa.Instruction, cc *ssa.CallCommon, res ssa.Val
 	if t.contractInvoke(in, cc, res, tgts) {
 		return
 	}
+	if t.splitInvoke(in, cc, res, tgts) {
+		return
+	}
 	all := len(tgts) == 0
 	vars := map[string]bool{}
 	blocks := false
@@ -856,6 +859,101 @@ func (t *fnTrans) invokeCall(in ssa.Instruction, cc *ssa.CallCommon, res ssa.Val
 	t.ownFrame(preSt, cc.Args)
 	t.freshResults(res, nameOf(res, "r"))
 	t.ownInvokeHook(in, cc, res)
+}
+
+// splitInvoke: an interface call without an interface-level contract whose every implementation in
+// the module has a contract of its own (and there are few of them) is a choice on the dynamic type:
+// one modular call per implementation under `itag(v) == tag(T)`, plus -- the interface is open --
+// an arbitrary implementation (the old treatment) for every other dynamic type.
+func (t *fnTrans) splitInvoke(in ssa.Instruction, cc *ssa.CallCommon, res ssa.Value, tgts []*ssa.Function) bool {
+	if len(tgts) == 0 || len(tgts) > 8 {
+		return false
+	}
+	for _, f := range tgts {
+		if f.Signature.Recv() == nil || len(f.Blocks) == 0 || f.Synthetic != "" || !t.g.fnInModule(f) {
+			return false
+		}
+		if fc := t.g.ann.funcs[t.g.contractKey(f)]; fc == nil {
+			return false
+		}
+	}
+	pre := t.cur
+	pre.frozen = true
+	v := t.val(cc.Value)
+	var outs []*State
+	var conds, reaches []string
+	var results [][]string
+	for _, f := range tgts {
+		rt := f.Signature.Recv().Type()
+		t.cur = t.h.child(pre)
+		cond := fmt.Sprintf("(= (itag %s) %d)", v, t.g.tagOf(rt))
+		t.assume(cond)
+		rv := ssa.NewConst(nil, rt)
+		t.vals[rv] = []string{t.ifacePayload(rt, v)}
+		cc2 := &ssa.CallCommon{Value: f, Args: append([]ssa.Value{rv}, cc.Args...)}
+		t.moduleCall(in, f, cc2, res, nil)
+		outs = append(outs, t.cur)
+		conds = append(conds, cond)
+		reaches = append(reaches, t.cur.reach)
+		if res != nil {
+			results = append(results, append([]string{}, t.vals[res]...))
+		}
+	}
+	// any other dynamic type
+	{
+		t.cur = t.h.child(pre)
+		var not []string
+		for _, c := range conds {
+			not = append(not, "(not "+c+")")
+		}
+		cond := and(not...)
+		t.assume(cond)
+		all := false
+		vars := map[string]bool{}
+		for _, f := range tgts {
+			s := t.g.summaries[f]
+			if s == nil || s.all {
+				all = true
+				continue
+			}
+			for hv := range s.vars {
+				vars[hv] = true
+			}
+		}
+		preSt := t.cur
+		t.havocVars(all, vars)
+		t.ownFrame(preSt, cc.Args)
+		t.freshResults(res, nameOf(res, "r"))
+		t.ownInvokeHook(in, cc, res)
+		outs = append(outs, t.cur)
+		conds = append(conds, cond)
+		reaches = append(reaches, t.cur.reach)
+		if res != nil {
+			results = append(results, append([]string{}, t.vals[res]...))
+		}
+	}
+	rn := t.c.define(t.c.fresh("R@invoke"), "Bool", or(reaches...))
+	t.cur = t.h.child(t.h.join(outs, conds, rn))
+	if res != nil && len(results) > 0 {
+		n := len(results[0])
+		merged := make([]string, n)
+		for i := 0; i < n; i++ {
+			body := results[len(results)-1][i]
+			for k := len(results) - 2; k >= 0; k-- {
+				if len(results[k]) != n {
+					return true
+				}
+				body = ite(conds[k], results[k][i], body)
+			}
+			srt := t.sortOf(res.Type())
+			if tu, ok := res.Type().(*types.Tuple); ok {
+				srt = t.sortOf(tu.At(i).Type())
+			}
+			merged[i] = t.c.define(t.c.fresh(nameOf(res, "r")), srt, body)
+		}
+		t.vals[res] = merged
+	}
+	return true
 }
 
 func (t *fnTrans) externalCall(in ssa.Instruction, name string, cc *ssa.CallCommon, res ssa.Value) {
@@ -1598,6 +1696,29 @@ func (t *fnTrans) mStringsIndex(in ssa.Instruction, cc *ssa.CallCommon, res ssa.
 	x, sub := t.val(cc.Args[0]), t.val(cc.Args[1])
 	r := t.freshResults(res, nameOf(res, "index"))
 	t.assume("(or (= " + r[0] + " (- 1)) (and (<= 0 " + r[0] + ") (<= (+ " + r[0] + " (str_len " + sub + ")) (str_len " + x + "))))")
+	return true
+}
+
+// strings.HasPrefix(s, p): trusted library fact -- a function of (s, p); when true, s is p followed by
+// the rest of s (so stripping len(p) bytes and putting p back gives s).
+func (t *fnTrans) mStrHasPrefix(in ssa.Instruction, cc *ssa.CallCommon, res ssa.Value) bool {
+	x, p := t.val(cc.Args[0]), t.val(cc.Args[1])
+	r := t.freshResults(res, nameOf(res, "hasprefix"))
+	hp := t.c.declareFun("str_hasprefix", []string{"Str", "Str"}, "Bool")
+	sub := t.c.declareFun("str_sub", []string{"Str", "Int", "Int"}, "Str")
+	t.assume(eq(r[0], "("+hp+" "+x+" "+p+")"))
+	rest := fmt.Sprintf("(%s %s (str_len %s) (str_len %s))", sub, x, p, x)
+	t.assume(implies(r[0], fmt.Sprintf("(and (<= (str_len %s) (str_len %s)) (= (str_concat %s %s) %s) (= (str_len %s) (- (str_len %s) (str_len %s))))", p, x, p, rest, x, rest, x, p)))
+	return true
+}
+
+// strings.TrimPrefix(s, p): s without the leading p when s has that prefix, else s.
+func (t *fnTrans) mTrimPrefix(in ssa.Instruction, cc *ssa.CallCommon, res ssa.Value) bool {
+	x, p := t.val(cc.Args[0]), t.val(cc.Args[1])
+	r := t.freshResults(res, nameOf(res, "trimprefix"))
+	hp := t.c.declareFun("str_hasprefix", []string{"Str", "Str"}, "Bool")
+	has := "(" + hp + " " + x + " " + p + ")"
+	t.assume(fmt.Sprintf("(ite %s (and (= (str_concat %s %s) %s) (= (str_len %s) (- (str_len %s) (str_len %s)))) (= %s %s))", has, p, r[0], x, r[0], x, p, r[0], x))
 	return true
 }
 
